@@ -721,7 +721,8 @@ def correspondence(ctx) -> C.Part:
                 continue
             if int(np.sum(inside_mask(f, band))) >= 2:
                 P.nontrivial.add(("rms", n, gk, mode))
-            P.sample({"op": "rms", "n": n, "grid": gk, "band": band, "impl": vi, "model": vm})
+                if n >= 5 and i % 7 == 0:
+                    P.sample({"op": "rms", "n": n, "grid": gk, "band": band, "impl": vi, "model": vm}, cap=4)
             if math.isnan(vi) or math.isnan(vm):
                 P.hit("rms-nan(negative signed area on an unsorted grid)")
                 if math.isnan(vi) and math.isnan(vm):
@@ -755,7 +756,7 @@ def correspondence(ctx) -> C.Part:
         tol = 8 * U * (n + 2) * float(np.max(np.abs(x)))        # sequential (model) vs pairwise (np.mean) summation
         if vm.shape != vi.shape or not np.all(np.abs(vi - vm) <= tol):
             disagree(P, {"op": "detrend0", "x": x.tolist(), "impl": vi.tolist(), "model": vm.tolist(), "tol": tol})
-        elif i < 2:
+        elif i in (16, 17):
             P.sample({"op": "detrend0", "n": n, "kind": kind, "impl": vi[:4].tolist(), "model": vm[:4].tolist()})
     return P
 
@@ -819,8 +820,8 @@ def oracle(ctx, intensive: bool = False, hints=()) -> C.Part:
         cs = int(rng.integers(0, 2 ** 62))
         x = make_series(cs, n, kind)
         detrend_eval(P, x, p, {"gen": {"case_seed": cs, "n": n, "series": kind}}, as_list=(i % 7 == 3 and n <= 500))
-        if i < 3:
-            P.sample({"op": "detrend", "n": n, "order": p, "series": kind})
+        if i in (50, 51):
+            P.sample({"op": "detrend", "n": n, "order": p, "series": kind}, cap=8)
     npoly = ctx.scale(120, 1200) * mult
     for i in range(npoly):
         if ctx.time_left() < 55 or len(P.violations) >= MAX_VIOL:
@@ -840,8 +841,8 @@ def oracle(ctx, intensive: bool = False, hints=()) -> C.Part:
             break
         spec = gen_df_spec(rng, i)
         df_eval(P, spec)
-        if i == 0:
-            P.sample({"op": "df_detrend", **spec})
+        if i == 2:
+            P.sample({"op": "df_detrend", **spec}, cap=9)
 
     # -- (3) integral_rms
     ngrid = ctx.scale(200, 2000) * mult
@@ -853,8 +854,8 @@ def oracle(ctx, intensive: bool = False, hints=()) -> C.Part:
         f = gen_grid(rng, n, gk)
         y = gen_asd(rng, f, ASD_KINDS[(i // len(GRID_KINDS)) % len(ASD_KINDS)])
         rms_grid_checks(P, rng, f, y, gk, nbands=6)
-        if i in (30, 31):
-            P.sample({"op": "integral_rms", "n": len(f), "grid": gk, "f[:3]": f[:3].tolist(), "asd[:3]": y[:3].tolist()})
+        if i == 30:
+            P.sample({"op": "integral_rms", "n": len(f), "grid": gk, "f[:3]": f[:3].tolist(), "asd[:3]": y[:3].tolist()}, cap=10)
 
     # -- (4)+(5) get_rms on computed results, Parseval probe
     nres = ctx.scale(24, 200) * mult
